@@ -168,10 +168,12 @@ OP_KINDS = ["diy", "dim", "wiy", "diyr", "leap", "cwds", "owds", "d1ad",
             "hold", "held_add", "held_reprs", "dto_proc", "dto_diff", "cli",
             "trunc_add", "consts", "props_epoch", "xuse", "xuse",
             "from_epoch_l", "sh_proc", "sh_now", "sh_fmt", "sh_iter",
-            "sh_parts", "sh_ref", "parse_expr"]
+            "sh_parts", "sh_ref", "parse_expr", "parse_trunc"]
 # (add_sweep is generated on its own, rarely: it is 6000 additions)
 
 
+TRUNC_BOUNDS = ["-W53", "-W53-4", "-366", "--02-30", "--02-29", "-W52-7",
+                "---31", "-365"]
 MODE_SENSITIVE_DATES = ["2001-02-30T06:00:00Z", "2001-02-29", "2004-W53-1",
                         "2000-02-29T00Z", "2003-366", "2001-12-31T12Z",
                         "2002-W53-7T00Z", "20010230"]
@@ -329,6 +331,10 @@ def gen_op(rng, kind, hot, handles):
         offs = [rng.choice(DURS) for _ in range(rng.choice([0, 1, 1, 2]))]
         return ["sh_proc", gen_point(rng, hot), offs,
                 rng.choice([None, None] + DUMP_FORMATS)]
+    if kind == "parse_trunc":
+        # truncated dates whose bounds depend on the calendar (week 53, day
+        # 366, 30 February): parsed and validated only, never added
+        return ["parse_trunc", rng.choice(TRUNC_BOUNDS)]
     if kind == "parse_expr":
         # the module-level convenience parser: a date that exists in some
         # calendars only must be refused in the others, whatever was parsed
@@ -577,6 +583,7 @@ def directed_ops():
         for action in X_ACTIONS[xkind]:
             ops.append(["xuse", "x%d" % xi, xkind, text, action])
     ops += [["parse_expr", t] for t in MODE_SENSITIVE_DATES]
+    ops += [["parse_trunc", t] for t in TRUNC_BOUNDS]
     ops += [["add_sweep", "2000-01-01T00:00:00Z", 733, 6000]]   # (see below)
     ops += [["sh_ref", "proc", [], None], ["sh_ref", "proc", ["P1M"], "CCYY-DDD"],
             ["sh_ref", "diff", "2024-03-01T00:00:00Z", False],
@@ -692,6 +699,27 @@ class Client(object):
         self.handles = {}
         self.dto = None
         self.birth = {}
+
+
+def public_constants(cal):
+    """Every public data attribute the active calendar shows (class level
+    or instance level), whatever its name: a constant that one mode sets
+    and another forgets to reset shows here.  The mode's own spelling is
+    left out (the mode model compares it by meaning); iterators are not
+    consumed."""
+    out = []
+    for name in sorted(dir(cal)):
+        if name.startswith("_") or name == "mode":
+            continue
+        val = getattr(cal, name)
+        if callable(val):
+            continue
+        if isinstance(val, (bool, int, float, str, type(None), list, tuple,
+                            dict)):
+            out.append([name, canon(val)])
+        else:
+            out.append([name, "<%s>" % type(val).__name__])
+    return out
 
 
 def summarise_list(lst):
@@ -876,6 +904,8 @@ def do_op(sim, client, op):
             if kind in ("sh_proc", "sh_now"):
                 return sim.oper.process_time_point_str(
                     op[1], op[2] or None, op[3])
+            if kind == "parse_trunc":
+                return canon(sh.tp_trunc.parse(op[1]))
             if kind == "parse_expr":
                 from metomi.isodatetime import parsers
                 return canon(parsers.parse_timepoint_expression(op[1]))
@@ -931,7 +961,8 @@ def do_op(sim, client, op):
                         cal.ROUGH_DAYS_IN_YEAR, cal.MAX_DAYS_IN_MONTH,
                         cal.SECONDS_IN_YEAR, cal.SECONDS_IN_YEAR_LEAP,
                         [list(i) for i in cal.INDEXED_DAYS_IN_MONTHS],
-                        [list(i) for i in cal.INDEXED_DAYS_IN_MONTHS_LEAP]]
+                        [list(i) for i in cal.INDEXED_DAYS_IN_MONTHS_LEAP],
+                        public_constants(cal)]
             raise kernel.HarnessError("unknown op %r" % (op,))
     except kernel.Hang:
         return "HANG"
